@@ -48,7 +48,7 @@ type cliFileSpec struct {
 func cliContent(cls, tag string) string {
 	switch cls {
 	case "xml", "noext", "linkxml", "stdinxml", "svg":
-		return `<?xml version="1.0"?>` + "\n" + `<r><e/><a>` + tag + `-1</a><b><a x="1" n:y="2" xmlns:n="urn:n">` + tag + `-2<!--c ` + tag + `--><?p d?><i>x &amp; y</i></a></b><n:a xmlns:n="urn:n">` + tag + `-3</n:a></r>`
+		return `<?xml version="1.0"?>` + "\n" + `<r><e/><a>` + tag + `-1</a><b><a x="1" n:y="2" xmlns:n="urn:n">` + tag + `-2<!--c ` + tag + `--><?p d?><i t="l1&#10;l2">x &amp; y</i></a></b><link>L</link><n:a xmlns:n="urn:n">` + tag + `-3</n:a></r>`
 	case "xmlbad":
 		return `<r><a>` + tag + `</r>`
 	case "xmlent":
@@ -67,7 +67,7 @@ type cliQuery struct {
 	opts []xsel.ContextApply
 }
 
-func cliQueries(q string, variant int) cliQuery {
+func cliQueries(q string, variant int, m bool) cliQuery {
 	switch q {
 	case "bad":
 		return cliQuery{expr: []string{"//a[", "//a b", "1 +", "//a]"}[variant%4]}
@@ -84,7 +84,13 @@ func cliQueries(q string, variant int) cliQuery {
 		}
 		return cliQuery{expr: "count(//a)"}
 	}
-	switch variant % 8 {
+	variant %= 9
+	if variant == 8 && !m {
+		variant = 3
+	}
+	switch variant {
+	case 8: // (only under -m) an attribute whose value holds a line feed: its record is still ONE line
+		return cliQuery{expr: "//i/@t | //a/@x"}
 	case 7: // the first node in document order has an EMPTY string-value: still one record (an empty one), and with -a / -m all of them
 		return cliQuery{expr: "//e | //a"}
 	case 6: // a reverse axis: the result arrives in reverse document order; the single record is still the FIRST node's string value
@@ -303,7 +309,7 @@ func cliCase(line string, rep *Report, fnd *Findings) {
 			os.WriteFile(full, []byte(cliContent(e.Cls, strings.ToUpper(strings.ReplaceAll(e.Name, ".", "_")))), 0o644)
 		}
 	}
-	q := cliQueries(gl.Flags.Q, int(h%8))
+	q := cliQueries(gl.Flags.Q, int(h%9), gl.Flags.M)
 	args := []string{"-x", q.expr}
 	args = append(args, q.args...)
 	if gl.Flags.A {
